@@ -180,6 +180,15 @@ CACHE_RES = dict(
                           params=["task_dict", "resource_dict"], returns=["task_resource_dict", "task_dict", "resource_dict"])),
     ])
 
+STEP_CTOR = dict(
+    out="StepCtor", file="executorlib/interactive/shared.py",
+    funcs=[
+        dict(py="InteractiveStepExecutor.__init__", name="step_ctor", inout=["executor_kwargs"],
+             skip=["super().__init__(max_cores=executor_kwargs.get('max_cores', None))"],
+             opaque={"self._future_queue": "future_queue"},
+             returns_call=("RaisingThread", ["kwargs"]), rc_wrapper="self._set_process"),
+    ])
+
 CACHE_KEY = dict(
     out="CacheKey", file="executorlib/cache/shared.py", requires=["Serialize"],
     funcs=[
@@ -225,4 +234,4 @@ BASE_EXEC = dict(
                           params=["self", "resource_dict"], returns=["resource_dict"])),
     ])
 
-TARGETS = [INPUTCHECK, SPAWNER, COMMUNICATION, BACKEND, SHARED_PATH, CACHE_CMD, WORKER_SERIAL, WORKER_PARALLEL, CACHE_PARALLEL, CACHE_BACKEND, SERIALIZE, SHARED_RES, CACHE_RES, CACHE_KEY, CONFIG_INTER, CONFIG_FILE, CONFIG_TOP, BASE_EXEC]
+TARGETS = [INPUTCHECK, SPAWNER, COMMUNICATION, BACKEND, SHARED_PATH, CACHE_CMD, WORKER_SERIAL, WORKER_PARALLEL, CACHE_PARALLEL, CACHE_BACKEND, SERIALIZE, SHARED_RES, STEP_CTOR, CACHE_RES, CACHE_KEY, CONFIG_INTER, CONFIG_FILE, CONFIG_TOP, BASE_EXEC]
